@@ -113,22 +113,7 @@ def r_C12a(root):
                 if isinstance(n, ast.Assign) and isinstance(n.targets[0], ast.Attribute) and isinstance(n.value, ast.Compare) and isinstance(n.value.ops[0], ast.In) \
                    and isinstance(n.value.left, ast.Constant) and isinstance(n.value.comparators[0], ast.Name) and n.value.comparators[0].id == "flags":
                     derived["self." + n.targets[0].attr] = n.value.left.value
-            names, rows = atoms.table(rep.body, feasible=None)
-            from sa import pyeval as _pe
-            for S in ("", "m", "p", "mp", "pm", "mm", "pp"):        # every word of the flags token [mp]+ up to length 2, and no flags
-                def val_for(a):
-                    if a in derived: return derived[a] in S
-                    if a == "self.flags": return bool(S)
-                    env = {"self.flags": S}; env.update({k: (v in S) for k, v in derived.items()})
-                    try: return bool(_pe.evaluate(ast.parse(a, mode="eval").body, env))
-                    except _pe.Unsupported: raise AnalysisError("unsupported guard atom in RRELExpression.__repr__: " + a)
-                sel = atoms.select(rows, val_for)
-                if len(sel) != 1: raise AnalysisError("RRELExpression.__repr__: %d paths for flags %r" % (len(sel), S))
-                row = sel[0]
-                prints_flags = "self.flags" in row.exit_text()
-                inst += 1
-                if prints_flags != bool(S):
-                    out.append(Finding("C12", "C12.a", "textx/scoping/rrel.py", "RRELExpression.__repr__", row.exit_text(), "flags %r are %sprinted" % (S, "" if prints_flags else "not "), witness="+%s:a" % S))
+            # (that the flags an expression was written with are printed again is decided by evaluation: C12.g, sa/rules/c12e.py)
     return inst, out
 def r_C32a(root):
     t = load(root, "textx/model.py"); fn = find(t, "ReferenceResolver.resolve_one_step"); out = []
